@@ -74,6 +74,17 @@ def wiring_rules(ck, R8):
               "blocks may be created)" if ok else
               "the wiring is not performed for each processed block over a stable copy", fz,
               blk_loops[0].ast if blk_loops else fz.node)
+        # ... and for EVERY block of the pass: no iteration of the per-block loop goes round
+        # without reaching the wiring loop (a `continue` for some block type leaves inverters that
+        # are created during the last pass unwired for good)
+        if blk_loops and inner is not None:
+            body = [gf.nodes[v] for v, lab in gf.succ[blk_loops[0].id] if lab == 'iter']
+            wit = gf.path_avoiding(body[0], [blk_loops[0]], avoid=[inner]) if body else [blk_loops[0]]
+            ck.ob(R8, f"{fz.fid} :: no block of a pass is skipped", wit is None,
+                  "every iteration of the per-block loop reaches the wiring loop" if wit is None else
+                  "an iteration of the per-block loop can go round without wiring the block: blocks "
+                  "skipped in one pass and created only during the last one are never wired", fz,
+                  blk_loops[0].ast, witness=__import__('sa.report', fromlist=['path_witness']).path_witness(gf, wit))
         passes = [n for n in gf.nodes if n.kind == 'for' and isinstance(n.ast.iter, ast.Tuple)]
         ok = len(passes) == 1 and [norm(e) for e in passes[0].ast.iter.elts] == ['block.CBlock', 'cblocks.Not']
         ck.ob(R8, f"{fz.fid} :: second pass for new inverters", ok,
